@@ -397,7 +397,7 @@ class Normaliser:
             args = tuple(lst)
             kwargs = tuple(sorted(kw.items(), key=lambda kv: kv[0]))
         if isinstance(f, ast.Name) and f.id not in self.env:
-            if MAP_AS_COMPREHENSION and f.id in ('map', 'filter') and len(e.args) == 2 and not e.keywords:
+            if MAP_AS_COMPREHENSION and f.id in ('map', 'filter', 'filterfalse') and len(e.args) == 2 and not e.keywords:
                 r = self._map_as_comp(f.id, e.args[0], e.args[1])
                 if r is not None:
                     return r
@@ -472,7 +472,7 @@ class Normaliser:
             else:
                 body = var
                 c = var if (isinstance(fexpr, ast.Constant) and fexpr.value is None) else self._apply(fexpr, var)
-                conds = (truthy(c),) if c is not None else None
+                conds = ((truthy(c) if which == 'filter' else mk_not(truthy(c))),) if c is not None else None
         finally:
             self._bound = base
         if body is None or conds is None:
